@@ -1224,4 +1224,208 @@ example : splitShellStrings [97, 32, 39, 98] = .err .unterminatedSingle := by de
 example : checkFlags false 256 false [51, 47, 55] .parseErr = .accept := by decide                            -- "3/7"
 example : checkFlags false 256 false [53, 48, 48, 75] .parseErr = .accept := by decide                        -- "500K"
 
+
+/-! ## applying extended options to a config struct (`Options.Apply`) -/
+
+/-- **uint options are exact**: accepted exactly when the value is an (unsigned) Go integer literal
+    whose number is below 2^32, and exactly that number is stored -/
+theorem apply_uint_ok_iff (value : Str) (d : Option Int) (r : Val) :
+    applyOne .uint value d = .ok r ↔ ∃ n, r = .uint n ∧ numeral value = some n ∧ n < 4294967296 := by
+  have h32 : (2 : Nat) ^ 32 = 4294967296 := by decide
+  unfold applyOne
+  simp only
+  cases hp : parseUint0 32 value with
+  | error e =>
+    simp only
+    constructor
+    · intro h; cases h
+    · rintro ⟨n, _, h2, h3⟩
+      have := (parseUint0_ok_iff 32 (by omega) value n).mpr ⟨h2, by rw [h32]; exact h3⟩
+      rw [hp] at this; cases this
+  | ok vi =>
+    obtain ⟨h1, h2⟩ := (parseUint0_ok_iff 32 (by omega) value vi).mp hp
+    simp only
+    constructor
+    · intro h; injection h with h; subst h; exact ⟨vi, rfl, h1, by rw [h32] at h2; exact h2⟩
+    · rintro ⟨n, rfl, h2', _⟩; rw [h1] at h2'; injection h2' with h2'; rw [h2']
+
+/-- a value with a sign is never accepted for a `uint` option (the seeded defect C49-b: `-1` stored as 2^64-1) -/
+theorem apply_uint_rejects_signed (c : UInt8) (rest : Str) (hc : c = 45 ∨ c = 43) (d : Option Int) :
+    ∃ e, applyOne .uint (c :: rest) d = .err e := by
+  cases h : applyOne .uint (c :: rest) d with
+  | err e => exact ⟨e, rfl⟩
+  | ok r =>
+    obtain ⟨n, _, h2, _⟩ := (apply_uint_ok_iff _ d r).mp h
+    rw [numeral_signed_none c rest hc] at h2; cases h2
+  | panic => unfold applyOne at h; simp only at h; split at h <;> cases h
+
+/-- **int options are exact**: optional sign and a Go integer literal; accepted exactly when the signed
+    number lies in `[-2^31, 2^31)`, and exactly that number is stored -/
+theorem apply_int_ok_iff (value : Str) (d : Option Int) (r : Val) :
+    applyOne .int value d = .ok r ↔
+      ∃ n, numeral (splitSign value).2 = some n ∧
+        r = .int (if (splitSign value).1 then -(n : Int) else (n : Int)) ∧
+        -2147483648 ≤ (if (splitSign value).1 then -(n : Int) else (n : Int)) ∧
+        (if (splitSign value).1 then -(n : Int) else (n : Int)) < 2147483648 := by
+  unfold applyOne
+  simp only
+  cases hp : parseInt0 32 value with
+  | error e =>
+    simp only
+    constructor
+    · intro h; cases h
+    · rintro ⟨n, h1, _, h3, h4⟩
+      have := (parseInt0_32_ok_iff value _).mpr ⟨n, h1, rfl, h3, h4⟩
+      rw [hp] at this; cases this
+  | ok vi =>
+    obtain ⟨n, h1, h2, h3, h4⟩ := (parseInt0_32_ok_iff value vi).mp hp
+    simp only
+    constructor
+    · intro h; injection h with h; subst h; exact ⟨n, h1, by rw [h2], by rw [← h2]; exact h3, by rw [← h2]; exact h4⟩
+    · rintro ⟨m, h1', rfl, _, _⟩
+      rw [h1] at h1'; injection h1' with h1'; subst h1'; rw [h2]
+
+/-- no option value makes `Apply` panic when the field has one of the supported types (all tagged
+    fields of restic's backend config structs have; checked in the correspondence run) -/
+theorem applyOne_no_panic (k : Kind) (hk : k ≠ .other) (value : Str) (d : Option Int) :
+    applyOne k value d ≠ .panic := by
+  unfold applyOne
+  cases k with
+  | other => exact absurd rfl hk
+  | str => intro h; cases h
+  | int => simp only; split <;> (intro h; cases h)
+  | uint => simp only; split <;> (intro h; cases h)
+  | bool => simp only; split <;> (intro h; cases h)
+  | dur => simp only; split <;> (intro h; cases h)
+
+/-- the transcription meets the executable per-option specification evaluated by the driver -/
+theorem applyOne_specOK (k : Kind) (value : Str) (d : Option Int) :
+    specApply k value d (applyOne k value d) = true := by
+  cases k with
+  | other => rfl
+  | str => simp [specApply, applyOne]
+  | bool =>
+    unfold specApply applyOne
+    simp only
+    cases parseBool value <;> simp
+  | dur =>
+    unfold specApply applyOne
+    simp only
+    cases d <;> simp
+  | uint =>
+    unfold specApply
+    simp only
+    cases hr : applyOne .uint value d with
+    | panic => exact absurd hr (applyOne_no_panic .uint (by decide) value d)
+    | ok r =>
+      obtain ⟨n, rfl, h2, h3⟩ := (apply_uint_ok_iff value d r).mp hr
+      simp [h2, h3]
+    | err e =>
+      cases hn : numeral value with
+      | none => rfl
+      | some n =>
+        simp only [Bool.not_eq_true', decide_eq_false_iff_not]
+        intro hlt
+        have := (apply_uint_ok_iff value d (.uint n)).mpr ⟨n, rfl, hn, hlt⟩
+        rw [hr] at this; cases this
+  | int =>
+    unfold specApply
+    simp only
+    cases hr : applyOne .int value d with
+    | panic => exact absurd hr (applyOne_no_panic .int (by decide) value d)
+    | ok r =>
+      obtain ⟨n, h1, rfl, h3, h4⟩ := (apply_int_ok_iff value d r).mp hr
+      simp [h1, h3, h4]
+    | err e =>
+      cases hn : numeral (splitSign value).2 with
+      | none => rfl
+      | some n =>
+        show (!(decide (-2147483648 ≤ (if (splitSign value).1 = true then -(n : Int) else (n : Int))) &&
+            decide ((if (splitSign value).1 = true then -(n : Int) else (n : Int)) < 2147483648))) = true
+        rw [Bool.not_eq_true', Bool.and_eq_false_iff, decide_eq_false_iff_not, decide_eq_false_iff_not]
+        by_cases hin : -2147483648 ≤ (if (splitSign value).1 then -(n : Int) else (n : Int)) ∧
+            (if (splitSign value).1 then -(n : Int) else (n : Int)) < 2147483648
+        · exfalso
+          have := (apply_int_ok_iff value d _).mpr ⟨n, hn, rfl, hin.1, hin.2⟩
+          rw [hr] at this; cases this
+        · by_cases h0 : -2147483648 ≤ (if (splitSign value).1 then -(n : Int) else (n : Int))
+          · right; intro hlt; exact hin ⟨h0, hlt⟩
+          · left; exact h0
+
+/-- `Apply` as a whole: when it succeeds every option named a field and was converted as above; it
+    never panics when every tagged field has a supported type -/
+theorem applyAll_ok (fields : List (Str × Kind)) (dur : Str → Option Int) (opts : List (Str × Str)) :
+    ∀ vs, applyAll fields dur opts = .ok vs →
+      vs.map (·.1) = opts.map (·.1) ∧
+      ∀ kv ∈ opts, ∃ k v, fields.lookup kv.1 = some k ∧ applyOne k kv.2 (dur kv.2) = .ok v ∧ (kv.1, v) ∈ vs := by
+  induction opts with
+  | nil => intro vs h; simp only [applyAll] at h; injection h with h; subst h; simp
+  | cons o os ih =>
+    intro vs h
+    obtain ⟨key, value⟩ := o
+    unfold applyAll at h
+    cases hl : fields.lookup key with
+    | none => rw [hl] at h; cases h
+    | some k =>
+      rw [hl] at h
+      simp only at h
+      cases ha : applyOne k value (dur value) with
+      | panic => rw [ha] at h; cases h
+      | err e => rw [ha] at h; cases h
+      | ok v =>
+        rw [ha] at h
+        simp only at h
+        cases hr : applyAll fields dur os with
+        | panic => rw [hr] at h; cases h
+        | err e => rw [hr] at h; cases h
+        | ok vs' =>
+          rw [hr] at h
+          injection h with h; subst h
+          obtain ⟨i1, i2⟩ := ih vs' hr
+          refine ⟨by simp [i1], ?_⟩
+          intro kv hkv
+          rcases List.mem_cons.mp hkv with rfl | hkv
+          · exact ⟨k, v, hl, ha, List.mem_cons_self ..⟩
+          · obtain ⟨k', v', a, b, c⟩ := i2 kv hkv
+            exact ⟨k', v', a, b, List.mem_cons_of_mem _ c⟩
+
+theorem applyAll_no_panic (fields : List (Str × Kind)) (hf : ∀ f ∈ fields, f.2 ≠ .other)
+    (dur : Str → Option Int) (opts : List (Str × Str)) : applyAll fields dur opts ≠ .panic := by
+  induction opts with
+  | nil => intro h; cases h
+  | cons o os ih =>
+    obtain ⟨key, value⟩ := o
+    unfold applyAll
+    cases hl : fields.lookup key with
+    | none => intro h; cases h
+    | some k =>
+      simp only
+      have hk : k ≠ .other := by
+        obtain ⟨l1, l2, rfl, _⟩ := List.lookup_eq_some_iff.mp hl
+        exact hf (key, k) (by simp)
+      cases ha : applyOne k value (dur value) with
+      | panic => exact absurd ha (applyOne_no_panic k hk value (dur value))
+      | err e => intro h; cases h
+      | ok v =>
+        simp only
+        cases hr : applyAll fields dur os with
+        | panic => exact absurd hr ih
+        | err e => intro h; cases h
+        | ok vs' => intro h; cases h
+
+/-- witnesses for the literal forms and the boundaries -/
+example : applyOne .uint [45, 49] none = .err .esyntax := by decide                           -- "-1"
+example : applyOne .uint [52, 50, 57, 52, 57, 54, 55, 50, 57, 53] none = .ok (.uint 4294967295) := by decide   -- 2^32-1
+example : applyOne .uint [52, 50, 57, 52, 57, 54, 55, 50, 57, 54] none = .err .range := by decide              -- 2^32
+example : applyOne .uint [48, 120, 49, 48] none = .ok (.uint 16) := by decide                 -- "0x10"
+example : applyOne .uint [48, 49, 55] none = .ok (.uint 15) := by decide                      -- "017"
+example : applyOne .uint [49, 95, 48, 48, 48] none = .ok (.uint 1000) := by decide            -- "1_000"
+example : applyOne .uint [49, 95, 95, 48] none = .err .esyntax := by decide                   -- "1__0"
+example : applyOne .int [45, 50, 49, 52, 55, 52, 56, 51, 54, 52, 56] none = .ok (.int (-2147483648)) := by decide
+example : applyOne .int [50, 49, 52, 55, 52, 56, 51, 54, 52, 56] none = .err .range := by decide               -- 2^31
+example : applyOne .int [45, 48, 120, 49, 48] none = .ok (.int (-16)) := by decide            -- "-0x10"
+example : applyOne .bool [84, 114, 117, 101] none = .ok (.bool true) := by decide             -- "True"
+example : applyAll [([117], .uint), ([115], .str)] (fun _ => none) [([117], [53]), ([115], [120])] =
+    .ok [([117], .uint 5), ([115], .str [120])] := by decide
+
 end Restic.Props.C49
